@@ -17,7 +17,27 @@ theorem answer (c : Ctx) (p buf : Bytes) (v : VendorId) (i : Nat)
       Spec.sub buf' 9 (n - 1) =
         [0x00#8, 0x06#8, 0x00#8, Spec.nextSelector i c.vendorIds.length] ++ Spec.encodeSet v ∧
       c'.vendorIds = c.vendorIds ∧ Spec.configOk c' = true := by
-  sorry
+  have hcmd' : byteAt p 10 = 0x06#8 := hcmd
+  have hun : Spec.reqUnimpl (byteAt p 10) = false := by rw [hcmd']; decide
+  obtain ⟨_, hfmt, _, h255, _⟩ := (Proc.configOk_iff c).mp hc
+  obtain ⟨hlt, hget⟩ := List.getElem?_eq_some_iff.mp hv
+  have hmem : v ∈ c.vendorIds := by rw [← hget]; exact List.getElem_mem hlt
+  obtain ⟨hf, hl⟩ := Proc.vendorField_eq v (hfmt v hmem)
+  have hsel : byteAt p 11 ≠ 0xFF#8 := by
+    intro h; rw [h] at hi; simp at hi; omega
+  have hd := Proc.dispatch_vendor_ok c (byteAt p 10) (byteAt p 6) (fun i => byteAt p (11 + i)) buf
+    (by rw [hcmd']; rfl) hsel v _ (by rw [← hi] at hv; exact hv) hf hl (by omega)
+  have hns : Proc.nextSel c (byteAt p 11) = Spec.nextSelector i c.vendorIds.length := by
+    rw [Proc.nextSel_eq c _ (by omega) h255, hi]
+  simp only [Nat.add_zero] at hd
+  rw [hns] at hd
+  refine ⟨_, _, _, _, Proc.process_of_dispatch c p buf ha hun _ _ _ hd, rfl, ?_, rfl, hc⟩
+  have := Proc.sub_respPkt c.address (byteAt p 6) 0x06#8
+    (0x00#8 :: Spec.nextSelector i c.vendorIds.length :: Spec.encodeSet v) (buf.drop (14 + (Spec.encodeSet v).length))
+  have e : 11 + (0x00#8 :: Spec.nextSelector i c.vendorIds.length :: Spec.encodeSet v).length =
+      14 + (Spec.encodeSet v).length - 1 := by simp; omega
+  rw [e] at this
+  simpa using this
 
 /-- the requester's walk: start at `i`, follow the returned selectors until 0xFF -/
 def walk (vs : List VendorId) : Nat → Nat → List Bytes
@@ -29,10 +49,34 @@ def walk (vs : List VendorId) : Nat → Nat → List Bytes
       Spec.encodeSet v ::
         (if Spec.nextSelector i vs.length = 0xFF#8 then [] else walk vs fuel (Spec.nextSelector i vs.length).toNat)
 
+theorem walk_from (vs : List VendorId) (h255 : vs.length ≤ 255) :
+    ∀ (fuel i : Nat), i < vs.length → vs.length - i ≤ fuel → walk vs fuel i = (vs.drop i).map Spec.encodeSet := by
+  intro fuel
+  induction fuel with
+  | zero => intro i h1 h2; omega
+  | succ fuel ih =>
+    intro i h1 h2
+    have hv : vs[i]? = some vs[i] := List.getElem?_eq_getElem h1
+    have hd : vs.drop i = vs[i] :: vs.drop (i + 1) := List.drop_eq_getElem_cons h1
+    simp only [walk, hv]
+    rw [hd, List.map_cons]
+    congr 1
+    by_cases hn : i + 1 = vs.length
+    · have : Spec.nextSelector i vs.length = 0xFF#8 := by simp [Spec.nextSelector, hn]
+      rw [if_pos this, List.drop_eq_nil_of_le (by omega)]; rfl
+    · have hns : Spec.nextSelector i vs.length = BitVec.ofNat 8 (i + 1) := by simp [Spec.nextSelector, hn]
+      have htn : (BitVec.ofNat 8 (i + 1)).toNat = i + 1 := by
+        simp only [BitVec.toNat_ofNat]; omega
+      have hne : BitVec.ofNat 8 (i + 1) ≠ 0xFF#8 := by
+        intro h; have := congrArg BitVec.toNat h; rw [htn] at this; simp at this; omega
+      rw [hns, if_neg hne, htn]
+      exact ih (i + 1) (by omega) (by omega)
+
 /-- starting at selector 0 the walk sees every configured set exactly once, in order, and stops -/
 theorem walk_complete (vs : List VendorId) (h1 : 1 ≤ vs.length) (h255 : vs.length ≤ 255) :
     walk vs 256 0 = vs.map Spec.encodeSet := by
-  sorry
+  have := walk_from vs h255 256 0 (by omega) (by omega)
+  simpa using this
 
 end C14
 end Mctp
